@@ -629,6 +629,7 @@ int main(int argc, char **argv)
   });
   vrt::shard("float_mod_double", [] { float_mod<double>("double"); });
   vrt::shard("float_mod_float", [] { float_mod<float>("float"); });
+  vrt::shard("float_mod_long_double", [] { float_mod<long double>("long double"); });
   vrt::shard("unary", [] {
     unary_unsigned<u8>();
     unary_unsigned<u16>();
